@@ -54,6 +54,10 @@ def cases(tier, inst):
     tiny = (inst[0], inst[1], 0.0004 * inst[2], inst[3])     # duties of a few hundredths: enthalpy changes near the display rounding
     for ms in P.stream_multisets(tiny, 3, 2, cps=(1, 2), dts=(1,), iso=False):
         yield {"streams": ms, "zones": ["A"] * len(ms), "uset": 1, "flags": [True, False, False], "inst": list(tiny)}
+    # zone trees: a root that is not targeted itself (a Community above the site), and two zones of the same name under different parents
+    for ms in P.stream_multisets(inst, 3, 2, cps=(1, 2), dts=(1,), iso=False, min_n=2):
+        yield {"streams": ms, "zones": ["S1/A", "S1/B"], "uset": 0, "flags": [True, False, False], "inst": list(inst), "tree": "community"}
+        yield {"streams": ms, "zones": ["A/X", "B/X"], "uset": 0, "flags": [True, False, False], "inst": list(inst)}
     for g in gens:
         for ms in g:
             n = len(ms)
@@ -163,7 +167,11 @@ def run(case, res: Result):
 
     inst = tuple(case["inst"])
     bal, vert, assist = case["flags"]
-    prob = A.problem([tuple(s) for s in case["streams"]], case["zones"], utilities=ladder(inst) if case["uset"] else [],
+    tree = None
+    if case.get("tree") == "community":
+        tree = {"name": "Town", "type": "Community", "children": [{"name": "S1", "type": "Site", "children": [
+            {"name": "A", "type": "Process Zone"}, {"name": "B", "type": "Process Zone"}]}]}
+    prob = A.problem([tuple(s) for s in case["streams"]], case["zones"], utilities=ladder(inst) if case["uset"] else [], zone_tree=tree,
                      options={"DO_BALANCED_CC": bal, "DO_VERTICAL_GCC": vert, "DO_ASSITED_HT": assist})
     out, master = S.run(prob)
     smap = series_map()
@@ -173,7 +181,11 @@ def run(case, res: Result):
     tr = S.traverse_targets(master)
     names = [k for _, _, k, _ in tr]
     # exactly one graph set per record, keyed and named by the record
-    for key in set(names):
+    for key in sorted(set(names)):
+        if names.count(key) > 1:
+            # records are named by the zone's own name, graph sets are keyed by that name: same-named zones cannot each have their set
+            res.violate("records_share_one_graph_set", case, {"record": key, "records_of_that_name": names.count(key), "graph_keys": sorted(graphs)},
+                        "records_share_one_graph_set:zones-of-the-same-name-under-different-parents")
         if names.count(key) == 1 and key not in graphs:
             res.violate("record_without_graph_set", case, {"record": key, "graph_keys": sorted(graphs)}, "record_without_graph_set:" + S.kind_of_record(key))
     for key in graphs:
@@ -216,6 +228,13 @@ def run(case, res: Result):
             for s in g.segments:
                 if re.sub(r"\s+\d+$", "", s.title or "") not in known_titles:
                     res.violate("undocumented_series", case, {"record": key, "graph": g.type, "title": s.title}, f"undocumented_series:{g.type}")
+            # site utility GCC: its ends are the hot and cold utility the site still needs = Qh and Qc of the Total Site record
+            if kind == S.TS and g.type == GT.SUGCC.value:
+                tb = t.graphs[g.type]
+                Hu = np.asarray(tb.col["H_net_ut"], dtype=float)
+                if len(Hu) and not np.isnan(Hu).any() and (abs(Hu[0] - Qh) > 0.016 or abs(Hu[-1] - Qc) > 0.016):
+                    res.violate("site_utility_gcc_ends_ne_targets", case, {"record": key, "top": float(Hu[0]), "bottom": float(Hu[-1]), "Qh": Qh, "Qc": Qc},
+                                "site_utility_gcc_ends_ne_targets:" + _sugcc_cause(z))
             # GCC ends = targets
             if kind == S.DI and g.type == GT.GCC.value:
                 segs = [s for s in g.segments if re.sub(r"\s+\d+$", "", s.title or "") == "GCC"]
@@ -228,6 +247,17 @@ def run(case, res: Result):
         if n_nonempty >= 3:
             rich += 1
     res.add_case(case, rich >= 1, outcome=[[k, [g.type for g in graphs[k].graphs], sum(len(s.data_points) for g in graphs[k].graphs for s in g.segments)] for k in sorted(graphs)])
+
+
+def _sugcc_cause(zone):
+    """the site utility GCC is drawn on the REAL temperature scale, the total-site targets come from the SHIFTED one: the two differ when a
+    heat-generating (cold) utility level lies at or above a heat-using (hot) level on the shifted scale but below it on the real scale"""
+    for h in zone.hot_utilities:            # the levels the site really has, generated defaults included
+        for c in zone.cold_utilities:
+            h_lo_real, c_hi_real = min(h.t_supply, h.t_target), max(c.t_supply, c.t_target)
+            if c_hi_real < h_lo_real and c_hi_real + c.dt_cont >= h_lo_real - h.dt_cont - 0.11:
+                return "generation-level-reaches-a-use-level-on-the-shifted-scale-only"
+    return "other"
 
 
 SUBCHECKS = {
